@@ -110,11 +110,12 @@ NAMES = ['motion', 'set_title', 'new', 'destroyed', 'commit']
 def gen_expressions(tier):
     """deterministic enumeration of expression ASTs (all atom kinds at every level)"""
     OBJS = [None, ('type', 'wl_pointer'), ('type', 'xdg_*'), ('type', 'wl_*_touch'), ('type', '*_popup'), ('id', 7), ('idgen', 7, 2), ('idgen', 12, 27),
-            ('list', [('type', 'wl_pointer'), ('type', 'wl_touch')], [('id', 7)]), ('list', [('id', 7), ('id', 9)], []), ('list', [], [('type', 'wl_*')])]
+            ('list', [('type', 'wl_pointer'), ('type', 'wl_touch')], [('id', 7)]), ('list', [('id', 7), ('id', 9)], []), ('list', [], [('type', 'wl_*')]),
+            ('list', [('type', 'wl_pointer'), ('list', [('type', 'wl_touch')], [('id', 7)])], []), ('list', [('list', [('type', 'wl_*')], [('type', 'wl_touch')]), ('id', 9)], [('idgen', 7, 2)])]
     NMS = [None, 'motion', 'set_*', 'set_*_title', '*tion', 'new', 'destroyed', ('list', ['motion', 'commit'], []), ('list', ['*'], ['motion'])]
     VALS = [None, ('int', 0), ('int', 7), ('int', -3), ('float', 1.5), ('float', 7.0), ('str', 'hi there'), ('str', ''), ('label', 'pressed'), ('label', 'wl_pointer'), ('label', 'wl_*'), ('nil',)]
     ITEMS = [(n, v) for n in (None, 'x', 's*') for v in VALS if not (n is None and v is None)]
-    ITEMS += [('list', [(None, ('int', 5)), (None, ('nil',))], []), ('list', [('x', ('int', 0)), ('y', ('int', 0))], []), ('list', [(None, ('label', 'pressed'))], [('x', None)])]
+    ITEMS += [('list', [(None, ('int', 5)), ('list', [(None, ('label', 'pressed'))], [('x', None)])], []), ('list', [(None, ('int', 5)), (None, ('nil',))], []), ('list', [('x', ('int', 0)), ('y', ('int', 0))], []), ('list', [(None, ('label', 'pressed'))], [('x', None)])]
     ARGS = [None] + [([i], []) for i in ITEMS]
     ARGS += [([ITEMS[i], ITEMS[(i * 7 + 3) % len(ITEMS)]], []) for i in range(0, len(ITEMS), 3)]
     ARGS += [([ITEMS[i]], [ITEMS[(i * 5 + 1) % len(ITEMS)]]) for i in range(0, len(ITEMS), 4)]
